@@ -6,6 +6,7 @@ import EupsModel.Lemmas.PathAct
 import EupsModel.Lemmas.PathActEups
 import EupsModel.Lemmas.PathAlgRun
 import EupsModel.Lemmas.PathAlgFlags
+import EupsModel.Lemmas.PathActName
 /-! C12 — path-variable commands obey list algebra.  Property theorems only (helper lemmas live in
 `Lemmas/PathAlg.lean`, the model in `Model/PathAlg.lean`). -/
 namespace EupsModel.C12
@@ -532,6 +533,21 @@ theorem table_run_idempotent (c : Nat) (var : Str) (acts : List (Bool × Str)) (
     ∃ env1 env2, pathRun c var true acts env = .ok env1 ∧ pathRun c var true acts env1 = .ok env2
       ∧ ∀ k, env2.get k = env1.get k :=
   pathRun_twice c var acts oldl env hgood hold henv
+
+
+/-- The product's own `${<NAME>_DIR}` stands for its directory whatever characters the name holds (`c++`, `a.b`:
+the reference is matched literally; repair of D124).  Hypothesis: the upper-cased name does not start with `P`
+(a product `PRODUCT` spells `${PRODUCT_DIR}`, which the earlier step owns). -/
+theorem name_dir_macro (p : PathAct.ProdInfo) (d tail : Str) (hd : p.dir = some d) (hne : d ≠ [])
+    (hd36 : 36 ∉ d) (ht : 36 ∉ tail) (hn36 : 36 ∉ p.name) (hhead : (PathAct.upper p.name).head? ≠ some 80) :
+    PathAct.expandMacros p (PathAct.mNameDir p.name ++ tail) = d ++ tail :=
+  PathAct.expandMacros_name_dir p d tail hd hne hd36 ht hn36 hhead
+
+/-- … and a reference to another product's variable is not this product's: concrete instance for `c++` vs `${C_DIR}`
+(the pinned pattern `\${C++_DIR}` matched it). -/
+theorem other_product_dir_untouched_example :
+    PathAct.expandMacros PathAct.cxx (Str.ofString "${C_DIR}/lib") = Str.ofString "${C_DIR}/lib" ∧
+    PathAct.expandMacros PathAct.cxx (Str.ofString "${C++_DIR}/bin") = Str.ofString "/opt/c/bin" := by decide
 
 /-! ## delimiters of several characters, values of several elements (`Lemmas/PathAlgMulti.lean`) -/
 
